@@ -172,7 +172,16 @@ class ActionDefinition:
         elif isinstance(config, dict):
             # 📝 Handle object definition: {"type": "myAction", ...}
             logger.debug("🔧 Parsing action definition from dict: %s", config)
-            self.type: str = config.get("type", "UnknownAction")
+            action_type = config.get("type", "UnknownAction")
+            # 🛡️ The type is looked up, prefix-tested and logged as a string
+            #    everywhere; anything else used to surface at start() as a raw
+            #    "'int' object has no attribute 'startswith'".
+            if not isinstance(action_type, str):
+                raise InvalidConfigError(
+                    "Action 'type' must be a string, got "
+                    f"{type(action_type).__name__}: {config!r}"
+                )
+            self.type: str = action_type
             self.params: Optional[Dict[str, Any]] = config.get("params")
         else:
             # ❌ Reject invalid definitions
@@ -275,6 +284,11 @@ class GuardDefinition:
                     or self.params.get("children")
                     or []
                 )
+            if not isinstance(children_cfg, (list, tuple)):
+                raise InvalidConfigError(
+                    f"❌ Guard '{guard_type}' must list its nested guards in "
+                    f"an array, got {type(children_cfg).__name__}."
+                )
             if not children_cfg and self.type in COMPOSITE_GUARD_TYPES:
                 # `not` is commonly written {"type": "not", "params": {...}}
                 # with a single nested guard.
@@ -372,7 +386,16 @@ class TransitionDefinition:
         )
         self.event: str = event
         self.source: "StateNode" = source
-        self.target_str: Optional[str] = config.get("target")
+        target = config.get("target")
+        # 🛡️ A non-string target parsed fine and then failed inside send()
+        #    with a raw TypeError from the resolver, far from the typo.
+        if target is not None and not isinstance(target, str):
+            raise InvalidConfigError(
+                f"Transition on '{event}' in state '{source.id}' has an "
+                f"invalid 'target' of type '{type(target).__name__}'. "
+                "Expected a state name or path as a string."
+            )
+        self.target_str: Optional[str] = target
         self.actions: List[ActionDefinition] = actions or []
 
         # 🛡️ Guard resolution.
@@ -465,7 +488,15 @@ class InvokeDefinition:
             config,
         )
         self.id: str = invoke_id
-        self.src: Optional[str] = config.get("src")
+        src = config.get("src")
+        # 🛡️ `src` is a key into `MachineLogic.services`; a list or object
+        #    surfaced as "unhashable type" when the state was entered.
+        if src is not None and not isinstance(src, str):
+            raise InvalidConfigError(
+                f"State '{source.id}' has an invoke with an invalid 'src' of "
+                f"type '{type(src).__name__}'. Expected a service name."
+            )
+        self.src: Optional[str] = src
         self.input: Optional[Dict[str, Any]] = config.get("input")
         self.source: "StateNode" = source
         self.on_done: List[TransitionDefinition] = on_done
@@ -791,9 +822,15 @@ class StateNode(Generic[TContext, TEvent]):
             return initial
 
         # 🕰️ History pseudo-states are never a valid initial target.
+        states_cfg = config.get("states", {})
+        if not isinstance(states_cfg, dict):
+            # 🛡️ Reported with the state's name by the shape validation in
+            #    `__init__`; calling `.items()` here raised a raw
+            #    AttributeError first.
+            return initial
         candidates = [
             key
-            for key, child in config.get("states", {}).items()
+            for key, child in states_cfg.items()
             if not (isinstance(child, dict) and child.get("type") == "history")
         ]
 
